@@ -91,7 +91,8 @@ example : Built (.response (.str ['1', '2', '3']) (.obj [])) :=
 example : Built (.error none (errObj (-32600) ['x'] .null)) := .dictError none (-32600) ['x'] .null
 example : createErrorResponse none 1 [] .null = .error .noId := rfl
 example : sendMessageRequest ['t'] (some [(kMeta, .str ['x'])]) none ['u'] ['v'] true = .error .metaNotDict := rfl
-example : ∃ m, sendMessageRequest ['t'] (some payload) (some []) ['u'] ['v'] true = .ok m ∧
+example : sendMessageRequest ['t'] none (some (.int 7)) ['u'] ['v'] false = .ok (.request (.int 7) ['t'] none) := rfl
+example : ∃ m, sendMessageRequest ['t'] (some payload) (some (.str [])) ['u'] ['v'] true = .ok m ∧
     memberOf kParams (emit m) = some (.obj (payload ++ [(kMeta, .obj [(kProgressToken, .str ['v'])])])) ∧
     (view m).id = some (.str ['u']) := ⟨_, rfl, rfl, rfl⟩
 example : valid (emit (.response (.int 1) .null)) = false := by decide
@@ -293,6 +294,43 @@ theorem c02_parse_batch_legacy_items (items : List Json) (cs : List Cls)
     simp only [List.all_eq_false]
     exact ⟨.legacy, hl, by decide⟩
   simp [parseBatch, h, h1, h2]
+
+/-- `send_message` sends the id it was given, JSON type included (integers of any size and sign, any non-empty
+string); only a falsy id (`None`, `""`, `0`) is replaced by a fresh uuid string. -/
+theorem c02_send_message_id_kept (method : Str) (params : Option Obj) (id : Id) (f1 f2 : Str) (progress : Bool) (m : Msg)
+    (h : sendMessageRequest method params (some id) f1 f2 progress = .ok m) (hs : id ≠ .str []) (hi : id ≠ .int 0) :
+    (view m).id = some id ∧ memberOf kId (emit m) = some id.toJson := by
+  have key : ∀ p, m = .request id method p → (view m).id = some id ∧ memberOf kId (emit m) = some id.toJson := by
+    intro p hm; subst hm
+    cases p <;> simp [view, emit, memberOf, getKey, optParams, kJsonrpc, kId]
+  cases id with
+  | str s =>
+    have hne : s ≠ [] := fun hc => hs (by rw [hc])
+    cases progress
+    · simp [sendMessageRequest, hne] at h; exact key _ h.symm
+    · simp only [sendMessageRequest, hne, if_false, if_true] at h
+      split at h
+      · simp at h; exact key _ h.symm
+      · simp at h
+  | int i =>
+    have hne : i ≠ 0 := fun hc => hi (by rw [hc])
+    cases progress
+    · simp [sendMessageRequest, hne] at h; exact key _ h.symm
+    · simp only [sendMessageRequest, hne, if_false, if_true] at h
+      split at h
+      · simp at h; exact key _ h.symm
+      · simp at h
+
+/-- Instances are independent: two `RootsManager`s (or two `NotificationHandler` registries) driven alternately
+end in exactly the states each reaches on its own operations — nothing is shared between instances. -/
+theorem c02_instances_independent (ops : List (Bool × RmOp)) (regs : List (Bool × (Str × Nat)))
+    (a b : List (Str × Json) × Nat) (ha hb : List (Str × Nat)) :
+    ops.foldl (stepTwo rmStep) (a, b) =
+      (((ops.filter (fun o => o.1)).map (·.2)).foldl rmStep a, ((ops.filter (fun o => !o.1)).map (·.2)).foldl rmStep b) ∧
+    regs.foldl (stepTwo fun hs r => nhRegister hs r.1 r.2) (ha, hb) =
+      (((regs.filter (fun o => o.1)).map (·.2)).foldl (fun hs r => nhRegister hs r.1 r.2) ha,
+       ((regs.filter (fun o => !o.1)).map (·.2)).foldl (fun hs r => nhRegister hs r.1 r.2) hb) :=
+  ⟨foldl_two rmStep ops a b, foldl_two _ regs ha hb⟩
 
 /-! Non-vacuity of the extension -/
 example : handleProgress ['p'] [(kMethod, .str ['p']), (kParams, .null)] = .error .paramsNotDict := rfl
